@@ -574,7 +574,7 @@ def run(ctx):
     cdir = os.path.join(ctx.verif, 'corpus', PID)
     if os.path.isdir(cdir):
         for fn in sorted(os.listdir(cdir)):
-            todo.append(json.load(open(os.path.join(cdir, fn)))['case'])
+            todo.append(dict(json.load(open(os.path.join(cdir, fn)))['case'], corpus=fn))
     for _ in range(ctx.budget(220, 3000)):
         todo.append(gen_case(rng.randrange(1 << 40), big))
     items = []
@@ -583,7 +583,10 @@ def run(ctx):
         if data is None:
             res.count('node.rejected-by-frappy')
             continue
-        items.append(('gen-%d' % case['seed'], {'kind': 'generated', 'seed': case['seed'], 'big': case['big']}, data))
+        if 'corpus' in case:
+            items.append(('corpus-' + case['corpus'], {'kind': 'corpus', 'file': case['corpus']}, data))
+        else:
+            items.append(('gen-%d' % case['seed'], {'kind': 'generated', 'seed': case['seed'], 'big': case['big']}, data))
     def judge_items(items):
         reqs = []
         for _, _, data in items:
@@ -617,6 +620,8 @@ def replay(ctx, rp):
     case = rp['case']
     if case['kind'] == 'generated':
         data = run_generated(gen_case(case['seed'], case['big']))
+    elif case['kind'] == 'corpus':
+        data = run_generated(json.load(open(os.path.join(ctx.verif, 'corpus', PID, case['file'])))['case'])
     else:
         nodes, _ = shipped_nodes(ctx)
         node, mods = {n: (nd, ms) for n, nd, ms in nodes}[case['name']]
